@@ -22,6 +22,7 @@ str_replace_all = z3.Function("str_replace_all", smt.S, smt.S, smt.S, smt.S)
 bytes_strip = z3.Function("bytes_strip", smt.Sq, smt.Sq)
 bytes_lower = z3.Function("bytes_lower", smt.Sq, smt.Sq)
 str_isdigit = z3.Function("str_isdigit", smt.S, smt.Bool)
+str_isdecimal = z3.Function("str_isdecimal", smt.S, smt.Bool)
 latin1_enc = z3.Function("latin1_enc", smt.S, smt.Sq)
 latin1_ok = z3.Function("latin1_ok", smt.S, smt.Bool)
 utf8_encodable = z3.Function("utf8_encodable", smt.S, smt.Bool)
